@@ -617,3 +617,66 @@ def instances(tier):
     out = _c04_instances_2(tier)
     out.append(Inst(iocb_queue, dict(k=2 if tier == "quick" else 3), budget=80 if tier == "quick" else 600))
     return out
+
+
+# ------------------------------------------------------------------ a completion callback submits the next request
+@meta(bounds="one IOCB client and one server; a chain of k requests to the same peer in which each one is submitted from "
+             "inside the completion callback of the one before (the usual way applications poll); the follow-up goes to the "
+             "same peer or to a second one (symbolic); each request's fate chosen symbolically from {ack, error, reject, "
+             "abort, no answer}; retry count 0",
+      outside="chains longer than k; callbacks that submit several requests",
+      stubs=["virtual clock (task._time)", "asyncore.loop -> clock advance", "task._Trigger -> wake flag", "fresh singletons per path"])
+def iocb_chain(d, k):
+    w = World()
+    lan = nl.FaultLAN([], world=w)
+    cdev = nl.make_device("c", 10, numberOfApduRetries=0, apduTimeout=APDU_TIMEOUT)
+    client = nl.IOStack(cdev, lan)
+    servers = [nl.AppStack(nl.make_device("s", 20), lan, app_timeout=APP_TIMEOUT),
+               nl.AppStack(nl.make_device("t", 21), lan, app_timeout=APP_TIMEOUT)]
+    modes = [d.pick(["ack", "error", "reject", "abort", "silent"], 'fate%d' % i) for i in range(k)]
+    where = [0] + [d.pick([0, 1], 'peer%d' % i) for i in range(1, k)]
+    for srv in servers:
+        def handler(apdu, srv=srv, orig=srv.do_ConfirmedPrivateTransferRequest):
+            srv.pt_mode = modes[bytes(apdu.serviceParameters.cast_out(nl.OctetString))[0]]
+            return orig(apdu)
+        srv.do_ConfirmedPrivateTransferRequest = handler
+    ios = []
+
+    def submit(i):
+        io = nl.IOCB(nl.private_transfer(servers[where[i]].address, bytes([i])))
+        io.calls = []
+
+        def done(io_, i=i):
+            io_.calls.append((io_.ioState, io_.ioResponse, io_.ioError, nl.now()))
+            if i + 1 < k and len(io_.calls) == 1:
+                submit(i + 1)
+        io.add_callback(done)
+        ios.append(io)
+        client.request_io(io)
+    submit(0)
+    w.run()
+    want = {"ack": "ack", "error": "error", "reject": "reject", "abort": "abort", "silent": "abort"}
+    if len(ios) != k:
+        raise Violation("chain-stalled", submitted=len(ios), want=k, fates=modes, peers=where)
+    for i, io in enumerate(ios):
+        if len(io.calls) != 1:
+            raise Violation("iocb-completion-count", index=i, n=len(io.calls), fates=modes, peers=where, chained=True)
+        state, resp, err, t = io.calls[0]
+        out = resp if state == IO_COMPLETED else err
+        kind = nl.outcome_kind(out)
+        if kind != want[modes[i]]:
+            raise Violation("iocb-outcome", index=i, got=kind, want=want[modes[i]], fates=modes, peers=where, chained=True)
+        if t > (i + 1) * (APDU_TIMEOUT + APP_TIMEOUT) / 1000.0 + 1:
+            raise Violation("iocb-late", index=i, t=t, chained=True)
+    if nl.residue(client) or any(nl.residue(x) for x in servers) or not w.idle():
+        raise Violation("residue", client=nl.residue(client), chained=True)
+    d.reach()
+
+
+_c04_instances_3 = instances
+
+
+def instances(tier):
+    out = _c04_instances_3(tier)
+    out.append(Inst(iocb_chain, dict(k=2 if tier == "quick" else 3), budget=80 if tier == "quick" else 600))
+    return out
